@@ -121,8 +121,9 @@ func Harness_C07_panicHistory() {
 		`{ me { pet { __typename } name } }`,
 		`{ users { link { id } } }`,
 		`{ me { friends { boss { id } } } }`,
+		`{ me { best { id } pet { __typename } name } }`, // two panics in one operation
 	}
-	spots := []string{"me/User.best", "me/User.pet", "users[0]/User.link", "me.friends[0]/User.boss"}
+	spots := [][]string{{"me/User.best"}, {"me/User.pet"}, {"users[0]/User.link"}, {"me.friends[0]/User.boss"}, {"me/User.best", "me/User.pet"}}
 	i1 := zzsym.Choice("first", len(docs))
 	i2 := zzsym.Choice("second", len(docs))
 	run := func(i int) (runResult, ref.Result) {
@@ -131,7 +132,9 @@ func Harness_C07_panicHistory() {
 		w.defaultRecover = true
 		w.outs["/Query.users"] = ref.Out{List: users("users[0]")}
 		w.outs["me/User.friends"] = ref.Out{List: users("me.friends[0]")}
-		w.outs[spots[i]] = ref.Out{K: ref.KPanic}
+		for _, sp := range spots[i] {
+			w.outs[sp] = ref.Out{K: ref.KPanic}
+		}
 		op := doc.Operations[0]
 		got := runOp(w, doc, op, nil)
 		want := ref.Execute(pSchema, doc, op, nil, w)
@@ -141,6 +144,6 @@ func Harness_C07_panicHistory() {
 	got, want := run(i2)
 	zzsym.Event("errors", strings.Join(got.errs, " "))
 	zzsym.Assert(got.data == want.Data, "the data of the second operation is its own")
-	zzsym.Assert(len(want.Errors) == 1 && sameErrors(got.errs, want.Errors), "the error of the second operation carries its own path, whatever panicked before")
+	zzsym.Assert(len(want.Errors) >= 1 && sameErrors(got.errs, want.Errors), "the errors of the second operation carry their own paths, whatever panicked before")
 	zzsym.Reach("c07.panics")
 }
